@@ -321,10 +321,17 @@ func (m *Manager) newStream(ctx context.Context, sid uint64, kind, rpc string) (
 	}
 
 	stream := drpcstream.NewWithOptions(ctx, sid, m.wr, opts)
+
+	// the stream has to be published as the latest one before it is handed to
+	// the stream manager: once handed over, a (soft) cancel releases the
+	// semaphore right away, and the next NewClientStream must already see this
+	// stream as its predecessor. otherwise it neither waits for it to finish
+	// nor moves past its id, and two streams share one stream id on the wire.
+	m.sbuf.Set(stream)
+
 	select {
 	case m.streams <- streamInfo{ctx: ctx, stream: stream}:
 		drpcdebug.Point("manager.newstream.beforeSet", m.tr)
-		m.sbuf.Set(stream)
 		m.log("STREAM", stream.String)
 		return stream, nil
 
